@@ -2429,6 +2429,63 @@ def innermost_rule(repo, rep, rule, class_qualnames, only=None):
 
 
 # ---------------------------------------------------------------------------
+# G-DISCARDED: a generator function only makes its fragments when somebody
+# iterates over the call; a call whose result is thrown away (an expression
+# statement) emits nothing
+
+
+def _is_generator(fnode):
+    todo = list(fnode.body)
+    while todo:
+        n = todo.pop()
+        if isinstance(n, (ast.Yield, ast.YieldFrom)):
+            return True
+        if isinstance(n, (ast.FunctionDef, ast.AsyncFunctionDef, ast.Lambda,
+                          ast.ClassDef)):
+            continue
+        todo.extend(ast.iter_child_nodes(n))
+    return False
+
+
+def discarded_generator_calls(repo, class_qualname):
+    """-> (number of calls of the class's generator methods through self,
+    [(method, call)] whose value is discarded)"""
+    ci = repo.cls(class_qualname)
+    gens = set()
+    for k in repo.mro(ci):
+        for name, m in k.methods.items():
+            if _is_generator(m.node):
+                gens.add(name)
+    n, lost = 0, []
+    for m in ci.methods.values():
+        for x in ast.walk(m.node):
+            if isinstance(x, ast.Call) and isinstance(x.func, ast.Attribute) \
+                    and src(x.func.value) == "self" and x.func.attr in gens:
+                n += 1
+                par = getattr(x, "_parent", None)
+                if isinstance(par, ast.Expr):
+                    lost.append((m, x))
+    return n, lost, gens
+
+
+def discarded_rule(repo, rep, rule, class_qualname, only=None):
+    n, lost, gens = discarded_generator_calls(repo, class_qualname)
+    if only is not None:
+        lost = [(m, x) for m, x in lost if x.func.attr in only]
+        if not set(only) <= gens:
+            from .core import AnalysisError
+            raise AnalysisError("generator methods %s of %s vanished" % (
+                sorted(set(only) - gens), class_qualname))
+    rep.check(n >= 1 and not lost, rule, class_qualname, "G-DISCARDED: no "
+              "call of a fragment generator is thrown away un-iterated (it "
+              "would emit nothing; %d calls of %d generator methods)" % (
+                  n, len(gens)), construct="generator-consumed",
+              where=where(lost[0][0], lost[0][1].lineno) if lost else "",
+              detail="; ".join("%s: %s" % (m.name, src(x)) for m, x in lost))
+    return n
+
+
+# ---------------------------------------------------------------------------
 # documented defaults of the template options (reference.rst / docstring of
 # PageTemplate): an option nobody sets has to behave as documented
 
